@@ -67,6 +67,13 @@ def gen_specs(run):
             variant(f"p=v@{j}", True, lambda x: setv(x, pv, pv))
             if pv + 1 <= 2 ** 64 - 1:
                 variant(f"p=v+1@{j}", False, lambda x: setv(x, pv, pv + 1))
+            # degenerate but valid openings: all-zero blinding vector; value 0 with an all-zero blinding vector (identity commitment)
+            def zero_r(x, v):
+                x["commit"][j] = {"v": str(v), "r": [gen.hx(0)] * T}
+                x["witness"][j] = {"v": str(v), "r": [gen.hx(0)] * T}
+                x["promises"][j] = None
+            variant(f"zero blinding vector@{j}", True, lambda x: zero_r(x, rng.randrange(1, top + 1)))
+            variant(f"identity commitment (v=0, r=0)@{j}", True, lambda x: zero_r(x, 0))
             variant(f"v=0,p=0@{j}", True, lambda x: setv(x, 0, 0))
             variant(f"v=0,p=1@{j}", False, lambda x: setv(x, 0, 1))
         # opening count
@@ -153,7 +160,7 @@ def run(run: Run):
         "proof",
         "(statement, witness) pairs with exactly one violation of the witness relation at the first / last / a random position of the aggregate "
         "(value +-1 under the same commitment, one blinding component changed, value 2^n-1 / 2^n / u64::MAX, promise = value / value+1, value >= 2^n masked by a "
-        "promise, missing / extra opening, witness degree +-1, swapped openings) and the valid boundary cases; prove Ok/Err is compared with the validity the "
+        "promise, missing / extra opening, witness degree +-1, swapped openings) and the valid boundary cases (incl. zero blinding vectors and the identity commitment); prove Ok/Err is compared with the validity the "
         "generator knows and with the Coq guard model (witness_valid evaluated at the concrete field on the same statement / witness), every Ok is verified, and valid small cases are compared with the Coq prover model; distinct by (bits, m, T, case kind, outcome)",
         [],
         TRUSTED)
